@@ -255,7 +255,11 @@ def _single_sweep(acc, shard, nshards, seed, tier):
                  ("http://a.com/x/index.html", "http://a.com/x/%69ndex.html"), ("http://a.com/x/index.html", "http://a.com/x/index%2Ehtml"),
                  ("http://a.com/x/amp/", "http://a.com/x/%61mp/"), ("http://a.com/x.amp", "http://a.com/x%2Eamp"),
                  ("http://a.com/x?utm_source=t&b=1", "http://a.com/x?%75tm_source=t&b=1"), ("http://a.com/x?utm_source=t&b=1", "http://a.com/x?utm%5Fsource=t&b=1"),
-                 ("http://a.com/x?b=1&a=2", "http://a.com/x?%62=1&a=2")]:
+                 ("http://a.com/x?b=1&a=2", "http://a.com/x?%62=1&a=2"),
+                 # a raw non-ASCII blank and an escape in one component (the blank must come out the same whatever the spelling of its neighbours)
+                 ("http://h.com/a\u3000b/cafe", "http://h.com/a\u3000b/caf%65"), ("http://h.com/a%E3%80%80b/cafe", "http://h.com/a\u3000b/caf%65"),
+                 ("http://h.com/x?k=a\u00a0b~c", "http://h.com/x?k=a\u00a0b%7Ec"), ("http://h.com/p#/r\u2003x/A", "http://h.com/p#/r\u2003x/%41"),
+                 ("http://h.com/x?a\u2028k=v1", "http://h.com/x?a\u2028%6b=v1")]:
         variants.append((b, v, "hex-case+escape-raw"))
     for i, (b, v, name) in enumerate(variants):
         if i % nshards != shard:
